@@ -49,10 +49,40 @@ func (propC18) Decode(raw []byte) (interface{}, error) {
 	return &sc, err
 }
 
-var c18ListFilters = []string{"sort", "reverse", "slice(0, 2)", "slice(1, 2)", "slice(1)", "merge([9, 8])", "merge(il)", "merge(l1)", "keys", "default([])", "first", "last", "join(',')", "length", "json_encode", "slice(0, 3)|sort", "sort|reverse", "slice(1, 3)|reverse", "merge([1])|sort", "reverse|slice(0, 2)|sort", "sort|slice(0, 2)|merge([0])"}
-var c18MapFilters = []string{"merge({'k1': 'X', 'zz': 1})", "keys", "keys|sort", "keys|reverse", "sort", "reverse", "first", "json_encode", "default({})", "length", "merge(m1)", "merge({'k1': 'X'})|keys|sort", "join(',')", "keys|slice(0, 1)"}
+var c18ListFilters = []string{"sort", "reverse", "slice(0, 2)", "slice(1, 2)", "slice(1)", "merge([9, 8])", "merge(il)", "merge(l1)", "default([])", "first", "last", "join(',')", "length", "json_encode", "slice(0, 3)|sort", "sort|reverse", "slice(1, 3)|reverse", "merge([1])|sort", "reverse|slice(0, 2)|sort", "sort|slice(0, 2)|merge([0])"}
+var c18MapFilters = []string{"merge({'k1': 'X', 'zz': 1})", "keys", "keys|sort", "keys|reverse", "first", "json_encode", "default({})", "length", "merge(m1)", "merge({'k1': 'X'})|keys|sort", "join(',')", "keys|slice(0, 1)"}
+
+// seqFilters are the list filters that keep a list a list (safe to chain)
+var c18SeqFilters = []string{"sort", "reverse", "slice(0, 2)", "slice(1)", "slice(1, 3)"}
+
+func mapAndFilter(r *R) (string, string) {
+	m := pick(r, c18Maps)
+	f := pick(r, c18MapFilters)
+	typed := m == "m2" || m == "mi" || m == "si"
+	for typed && strings.Contains(f, "merge(") {
+		f = pick(r, c18MapFilters)
+	}
+	return m, f
+}
+
 var c18Lists = []string{"l1", "il", "sl", "p1.Tags", "pp.Tags", "l2", "nums", "m1.list"}
 var c18Maps = []string{"m1", "m2", "mi", "p1.Meta", "pp.Meta", "m1.inner", "si"}
+
+// listAndFilter picks a list and a filter (chain) that the engine can apply to it: merging values of
+// another element type into a typed slice panics in the engine (C05's subject), which would only cut
+// renders short here.
+func listAndFilter(r *R) (string, string) {
+	l := pick(r, c18Lists)
+	f := pick(r, c18ListFilters)
+	typed := l == "il" || l == "sl" || l == "p1.Tags" || l == "pp.Tags"
+	for typed && strings.Contains(f, "merge(") {
+		f = pick(r, c18ListFilters)
+	}
+	if typed && r.P(15) {
+		f = "merge(" + l + ")|" + f
+	}
+	return l, f
+}
 
 func c18Template(r *R) string {
 	var sb strings.Builder
@@ -61,32 +91,41 @@ func c18Template(r *R) string {
 	for i := 0; i < n; i++ {
 		switch r.N(13) {
 		case 0, 1:
-			sb.WriteString("{{ " + pick(r, c18Lists) + "|" + pick(r, c18ListFilters) + "|json_encode }};")
+			l, f := listAndFilter(r)
+			sb.WriteString("{{ " + l + "|" + f + "|json_encode }};")
 		case 2:
-			sb.WriteString("{{ " + pick(r, c18Maps) + "|" + pick(r, c18MapFilters) + "|json_encode }};")
+			m, f := mapAndFilter(r)
+			sb.WriteString("{{ " + m + "|" + f + "|json_encode }};")
 		case 3: // stability probe on a list
-			l, f := pick(r, c18Lists), pick(r, c18ListFilters)
-			sb.WriteString("{% set a = " + l + " %}" + dump("a") + "{% set b = a|" + f + " %}" + dump("a") + "{% set c = b|" + pick(r, c18ListFilters) + " %}\x03")
+			l, f := listAndFilter(r)
+			sb.WriteString("{% set a = " + l + " %}" + dump("a") + "{% set b = a|" + f + " %}" + dump("a") + "\x03")
 		case 4: // stability probe on a filter result
-			l, f, f2 := pick(r, c18Lists), pick(r, []string{"slice(0, 3)", "reverse", "sort", "merge([5])", "slice(1)"}), pick(r, []string{"sort", "reverse", "merge([7])", "slice(0, 1)"})
+			l, f, f2 := pick(r, []string{"l1", "l2", "nums", "m1.list"}), pick(r, []string{"slice(0, 3)", "reverse", "sort", "merge([5])", "slice(1)"}), pick(r, []string{"sort", "reverse", "merge([7])", "slice(0, 1)"})
+			if r.P(40) {
+				l, f, f2 = pick(r, []string{"il", "sl", "pp.Tags"}), pick(r, c18SeqFilters), pick(r, c18SeqFilters)
+			}
 			sb.WriteString("{% set a = " + l + "|" + f + " %}" + dump("a") + "{% set b = a|" + f2 + " %}" + dump("a") + "\x03")
 		case 5: // stability probe on a map
-			m, f := pick(r, c18Maps), pick(r, c18MapFilters)
+			m, f := mapAndFilter(r)
 			sb.WriteString("{% set a = " + m + " %}" + dump("a") + "{% set b = a|" + f + " %}" + dump("a") + "\x03")
 		case 6:
 			v := pick(r, []string{"s1", "l1", "m1", "n1", "pp", "il"})
 			sb.WriteString("{% set " + v + " = " + pick(r, []string{"'changed'", "[1, 2]", "l1|reverse", "m1|merge({'k1': 0})", "n1 + 1"}) + " %}{{ " + v + "|json_encode }};")
 		case 7:
 			v := pick(r, []string{"s1", "n1", "x", "m1", "l1"})
-			sb.WriteString("{% for " + v + " in " + pick(r, c18Lists) + "|" + pick(r, []string{"sort", "reverse", "slice(0, 2)", "merge([3])"}) + " %}{{ " + v + "|json_encode }}{% set s2 = " + v + " %}{% endfor %};")
+			sb.WriteString("{% for " + v + " in " + pick(r, c18Lists) + "|" + pick(r, c18SeqFilters) + " %}{{ " + v + "|json_encode }}{% set s2 = " + v + " %}{% endfor %};")
 		case 8:
 			sb.WriteString("{% include 'part' with {'l1': l1|sort, 's1': 'inc', 'm1': m1|merge({'k1': 'inc'})} %};")
 		case 9:
-			sb.WriteString("{% macro mm(l1, m1) %}{% set l1 = l1|reverse %}{{ l1|json_encode }}{{ m1|merge({'q': 1})|keys|json_encode }}{% endmacro %}{{ mm(" + pick(r, c18Lists) + ", " + pick(r, c18Maps) + ") }};")
+			sb.WriteString("{% macro mm(l1, m1) %}{% set l1 = l1|reverse %}{{ l1|json_encode }}{{ m1|merge({'q': 1})|keys|json_encode }}{% endmacro %}{{ mm(" + pick(r, c18Lists) + ", " + pick(r, []string{"m1", "p1.Meta", "pp.Meta", "m1.inner"}) + ") }};")
 		case 10:
 			sb.WriteString("{% for k, v in " + pick(r, c18Maps) + " %}{% set v = 'w' %}{{ k }}{% endfor %};")
 		case 11:
-			sb.WriteString("{{ " + pick(r, c18Lists) + "|" + pick(r, c18ListFilters) + "|" + pick(r, c18ListFilters[:9]) + "|json_encode }};")
+			l, f := listAndFilter(r)
+			for strings.Contains(f, "first") || strings.Contains(f, "last") || strings.Contains(f, "join") || strings.Contains(f, "length") || strings.Contains(f, "json") || strings.Contains(f, "default") {
+				l, f = listAndFilter(r)
+			}
+			sb.WriteString("{{ " + l + "|" + f + "|" + pick(r, c18SeqFilters) + "|json_encode }};")
 		default:
 			sb.WriteString("{% do " + "n1 + 1 %}{{ pp.Inner.Name }}{{ pp.Greeting }}{{ l2|first|json_encode }};")
 		}
